@@ -145,6 +145,12 @@ func (it *Interp) runToCompletion(start func(g *Goroutine)) (err error) {
 	defer func() {
 		if r := recover(); r != nil {
 			if pa, ok := r.(pathAbort); ok {
+				if pa.kind == "gopanic" {
+					// an uncaught panic in any goroutine ends the program: the
+					// same violation of the implicit no-panic obligation
+					err = fmt.Errorf("panic: %s", pa.msg)
+					return
+				}
 				err = fmt.Errorf("%s: %s", pa.kind, pa.msg)
 				return
 			}
